@@ -477,6 +477,14 @@ func (r *FnRun) execUnOp(st *State, x *ssa.UnOp) {
 		}
 		lv := r.load(st, v.S, x.Type(), x.Name())
 		st.vals[x] = lv
+		// s[i] on a byte slice: state the instance of the seqOf/bat axiom that links the
+		// element to the slice's contents as a sequence (contracts speak about seq(s))
+		if ia, ok := x.X.(*ssa.IndexAddr); ok && lv.K == KInt {
+			if bv, ok := st.vals[ia.X]; ok && bv.K == KSlice && isByteSlice(ia.X.Type()) {
+				iv := r.val(st, ia.Index)
+				st.assume(sEq(lv.S, sx("bat", r.seqOfSlice(st, bv), iv.S)))
+			}
+		}
 		if fa, ok := x.X.(*ssa.FieldAddr); ok && len(r.W.Specs.FieldInvs) > 0 {
 			if st0, ok := derefType(fa.X.Type()).Underlying().(*types.Struct); ok {
 				key := typeKey(derefType(fa.X.Type())) + "." + st0.Field(fa.Field).Name()
@@ -730,6 +738,12 @@ func (r *FnRun) binop(st *State, site ssa.Instruction, op token.Token, a, b Val,
 		v := r.fresh("or", "Int")
 		st.assume(sEq(v, sx("bor", a.S, b.S)))
 		st.assume(rangeAssume(v, t))
+		// x<<k | y with 0 <= y < 2^k is x<<k + y (disjoint bits)
+		if k, ok := r.shlBits()[a.S]; ok {
+			st.assume(sImp(sAnd(sx("<=", "0", b.S), sx("<", b.S, sBig(pow2(k))), sx("<=", "0", a.S)), sEq(v, sx("+", a.S, b.S))))
+		} else if k, ok := r.shlBits()[b.S]; ok {
+			st.assume(sImp(sAnd(sx("<=", "0", a.S), sx("<", a.S, sBig(pow2(k))), sx("<=", "0", b.S)), sEq(v, sx("+", a.S, b.S))))
+		}
 		return intVal(v, t)
 	case token.XOR:
 		v := r.fresh("xor", "Int")
@@ -757,11 +771,13 @@ func wrapShl(r *FnRun, st *State, a Val, n uint, t types.Type, lo, hi *big.Int, 
 	if lo.Sign() == 0 {
 		v := r.fresh("shl", "Int")
 		st.assume(sEq(v, sx("mod", raw, sBig(m))))
+		r.shlBits()[v] = n
 		return intVal(v, t)
 	}
 	// signed shift: wraps silently in Go; model exactly
 	v := r.fresh("shl", "Int")
 	st.assume(sEq(v, sx("-", sx("mod", sx("+", raw, sBig(new(big.Int).Neg(lo))), sBig(m)), sBig(new(big.Int).Neg(lo)))))
+	r.shlBits()[v] = n
 	return intVal(v, t)
 }
 
@@ -1050,4 +1066,24 @@ func (r *FnRun) matchOrdinal(site ssa.Instruction, pat string) int {
 		}
 	}
 	return 0
+}
+
+var shlStore = map[*FnRun]map[string]uint{}
+
+func (r *FnRun) shlBits() map[string]uint {
+	m := shlStore[r]
+	if m == nil {
+		m = map[string]uint{}
+		shlStore[r] = m
+	}
+	return m
+}
+
+func isByteSlice(t types.Type) bool {
+	sl, ok := t.Underlying().(*types.Slice)
+	if !ok {
+		return false
+	}
+	b, ok := sl.Elem().Underlying().(*types.Basic)
+	return ok && b.Kind() == types.Uint8
 }
